@@ -489,6 +489,7 @@ func runC12(c *Ctx) {
 	c.Check(okChanged, "a successful substitution always reports a change", p.Pos(findAndExpand.Pos()), "changed = true", "after substituting a provider value `changed` can be false (e.g. computed as output != input): a self-referential value stops the driver instead of running into the expansion bound, so the cycle is not reported")
 	runConfSubProvenance(c, "R6")
 	runC12Round3(c)
+	runC12Sanitize(c)
 }
 
 func guardedNilValue(b *ssa.BasicBlock, v ssa.Value) bool {
